@@ -273,6 +273,24 @@ func TestC06(t *testing.T) {
 		if fat > 0 {
 			ev.Class(id, "program with long / unusual annotation values")
 		}
+		// (iv) annotations take effect in importers exactly as the model says
+		// (same rule for the declaring package and for importers)
+		for _, cat := range []struct {
+			prefix string
+			expect func(*proggen.Prog, engine.Config) *proggen.Expect
+		}{{"IMM", proggen.ExpectIMM}, {"CTOR", proggen.ExpectCTOR}, {"TONL", proggen.ExpectTONL}, {"PKGO", proggen.ExpectPKGO}} {
+			e := cat.expect(p, cfg)
+			if mm := proggen.Compare(p, res.Diags, e, cat.prefix); len(mm) > 0 {
+				var ss []string
+				for _, m := range mm {
+					ss = append(ss, m.String())
+				}
+				must, may, oneOf := expectKeys(p, e)
+				pc := progCase{Pkgs: pkgDirs(p), Sources: src, Config: cfg, Prefixes: []string{cat.prefix}, Must: must, May: may, OneOf: oneOf}
+				violation(rt, id, "prog", "c06-exact", p.Size(), pc, "annotations do not take effect across the package boundary as in the declaring package: %s", strings.Join(ss, "; "))
+			}
+		}
+		ev.Class(id, "relation exactness across package edges")
 		// (ii) root sets
 		c := c06Case{Pkgs: pkgDirs(p), Sources: src, Mode: "rootsets"}
 		if why := c06RootSets(c); why != "" {
